@@ -45,8 +45,12 @@ Progs == <<
     Let("k", FnLit(<<"x">>, <<Code(IfElse(Id("x"), <<Let("m", IntL(7))>>, <<Let("m", IntL(8))>>)), Ret(Id("m"))>>)), Emit(Call("k", <<Bool(TRUE)>>)), Emit(Call("k", <<Bool(FALSE)>>))>>,
   \* 11 index / call / hash forms where white space may be inserted between adjacent tokens
   <<Let("xs", Arr(<<Str(<<"x">>), Str(<<"y">>), Str(<<"z">>)>>)), Emit(Idx(Id("xs"), IntL(1))), Let("h", Hash(<<"a">>, <<Arr(<<IntL(4), IntL(5)>>)>>)), Emit(Idx(Idx(Id("h"), Str(<<"a">>)), IntL(0))),
-    Let("f", FnLit(<<"p", "q">>, <<Ret(Bin("+", Id("p"), Id("q")))>>)), Emit(Call("f", <<IntL(1), Call("len", <<Id("xs")>>)>>)), Emit(Call("f", <<Idx(Id("xs"), IntL(0)), Idx(Id("xs"), IntL(2))>>))>>
+    Let("f", FnLit(<<"p", "q">>, <<Ret(Bin("+", Id("p"), Id("q")))>>)), Emit(Call("f", <<IntL(1), Call("len", <<Id("xs")>>)>>)), Emit(Call("f", <<Idx(Id("xs"), IntL(0)), Idx(Id("xs"), IntL(2))>>))>>,
+  \* 12 member access after an index, with the member's name also used as a variable of its own (same line in the canonical layout)
+  <<Let("Name", Dot(Idx(Id("team"), IntL(0)), "Name")), Emit(Id("Name")), Text(<<"|">>), Emit(Dot(Idx(Id("team"), IntL(1)), "Name")), Let("i", IntL(0)),
+    Emit(Dot(Idx(Id("team"), Id("i")), "Name")), Emit(Id("Name")), Text(<<"|">>), Emit(Dot(Id("lead"), "Name")), Emit(Id("Name"))>>
 >>
+Data == [team |-> A(<<Rec([Name |-> S(<<"A", "n", "n">>)]), Rec([Name |-> S(<<"B", "o">>)])>>), lead |-> Rec([Name |-> S(<<"L">>)])]
 Parts == [p |-> <<Text(<<"{">>), Emit(Id("d")), Text(<<"}">>)>>]
 
 \* ---- layouts
@@ -79,6 +83,7 @@ Kinds(ts) ==
         \* a gap: this token and the next one are adjacent (no separator), one of them is punctuation, not inside a string;
         \* the layout may put white space AFTER this token
         ELSE IF inside[i] /\ i < Len(ts) /\ ts[i] \notin ({" ", "NL"} \cup Openers) /\ ts[i+1] \notin {" ", "%>"} /\ (ts[i] \in Punct \/ ts[i+1] \in Punct)
+                /\ ts[i] # "." /\ ts[i+1] # "."                     \* a dot belongs to the path it stands in
                 /\ quotes(i) % 2 = 0 /\ opener(i) # "<%#" THEN "gap"
         ELSE ""]
 
@@ -118,7 +123,7 @@ Apply(ts, ks, l, i) ==
 Expect(r) == CASE r.k = "out" -> [k |-> "out", pieces |-> r.pieces, log |-> r.log]
                [] r.k = "err" -> [k |-> "err", w |-> r.w, log |-> r.log]
                [] OTHER       -> [k |-> "unspec"]
-Res == Run(Progs[pi], WithHelpers(EmptyScope), Parts, "")
+Res == Run(Progs[pi], WithHelpers(Data), Parts, "")
 \* layout never touches anything but separators, tag boundaries and comment tags
 RECURSIVE Strip(_)
 Strip(ts) == IF ts = <<>> THEN <<>> ELSE
@@ -134,6 +139,6 @@ SameTokens == done => Strip(DropComments(Apply(Toks, KS, lay, 1))) = Strip(Toks)
 Defined == done => Res.k = "out"
 
 EmitCase == ~done \/ PrintT("CASE " \o ToJson([gen |-> "GenLayout", srcs |-> [canonical |-> Toks, layout |-> Apply(Toks, KS, lay, 1)],
-                                                data |-> EmptyScope, parts |-> [x \in DOMAIN Parts |-> Unparse(Parts[x])],
+                                                data |-> Data, parts |-> [x \in DOMAIN Parts |-> Unparse(Parts[x])],
                                                 shape |-> "prog" \o ToString(pi) \o ":" \o ToString(Changed), expect |-> Expect(Res)]))
 =============================================================================
